@@ -16,6 +16,16 @@ Pay(kind, seed, len, upto) == [j \in 1..upto |-> PayAt(kind, seed, len, j - 1)]
 Csum(s) == LET S[i \in 0..Len(s)] == IF i = 0 THEN 0 ELSE (S[i - 1] + s[i] * (((i - 1) % 251) + 1)) % 65521
            IN S[Len(s)]
 
+\* "fits that answer format": what one answer of each record type can carry, from the format itself -
+\*  NULL / PRIVATE: raw rdata, every length of the quantifier (<= 4096, the receiver's rdata buffer);
+\*  MX / SRV: up to 250 exchange names, far more than 4096 bytes;
+\*  TXT: character strings decoded into the receiver's 4096-byte text buffer: one codec letter + 4095 characters;
+\*  CNAME / A: one host name of at most 253 characters: minus ".xy", the codec letter and a dot every 57 characters = 245
+Bits(c) == CASE c = "T" -> 5 [] c = "S" -> 6 [] c = "U" -> 6 [] c = "V" -> 7 [] OTHER -> 8
+Fits(e) == CASE e.qt = 16 -> e.len <= (4095 * Bits(e.codec)) \div 8
+             [] e.qt \in {5, 1} -> e.len <= (245 * Bits(e.codec)) \div 8
+             [] OTHER -> e.len <= 4096
+
 VARIABLE minNonExact        \* smallest payload length of the current sweep that was not delivered exactly
 DInit == minNonExact = 100000
 
@@ -27,6 +37,7 @@ Down(e) ==
     IN /\ e.glen <= e.len                            \* exactly the payload, a proper prefix of it, or nothing ...
        /\ e.gsum = Csum(exp)                         \* ... never different bytes
        /\ e.full => e.got = exp
+       /\ Fits(e) => exact                           \* exactly the payload when it fits the answer format
        /\ exact => e.len < minNonExact               \* if a length is delivered exactly, so is every shorter one
        /\ minNonExact' = IF exact \/ e.len >= minNonExact THEN minNonExact ELSE e.len
 DReset == minNonExact' = 100000
